@@ -422,6 +422,7 @@ fn main() {
         |jobs, _| {
             reg_enum!(jobs, "shift_all", enum_all, body; [0, 1, 2, 3, 4, 5, 6, 7, 8]);
             w_all_wide!(reg_gen!(jobs, "shift", 10000, strat, body;));
+            w_giant!(reg_gen!(jobs, "shift", 600, strat, body;));
         },
         |_| Map::new(),
     );
